@@ -476,7 +476,10 @@ FiredNow(c) == c \in DOMAIN cbs' /\ (c \notin DOMAIN cbs \/ Len(cbs'[c]) > Len(c
 NoCallForgotten == \A n \in Nodes : BothLive(n) => \A c \in HeldCids(node[n]) : c \in HeldCids(node'[n]) \/ FiredNow(c)
 StepViolations ==
      (IF NoCallForgotten THEN {} ELSE {"C19.NoCallForgotten"}) \cup
-     (IF VersionNeverLowered THEN {} ELSE {"C17.VersionNeverLowered"}) \cup
+     \* (an older snapshot installed over a newer state - known finding KF7 - takes the enabled version back with everything else)
+     (IF VersionNeverLowered THEN {}
+      ELSE IF \A n \in Nodes : (BothLive(n) /\ node'[n].ver < node[n].ver) => InstallOlderSig(n) THEN {"C17.VersionNeverLowered#KF7"}
+      ELSE {"C17.VersionNeverLowered"}) \cup
      (IF VoteSurvives THEN {} ELSE {"C07.VoteSurvives"}) \cup
      (IF VoteDurableAtDeath THEN {} ELSE {"C07.VoteDurableAtDeath"}) \cup
      (IF MonotoneIndices THEN {} ELSE IF \A n \in MonoBad : InstallOlderSig(n) THEN {"C04.MonotoneIndices#KF7"} ELSE {"C04.MonotoneIndices"})
